@@ -203,6 +203,16 @@ def obligations(tier):
                     out.append(("to_tensor(result at zero budget) ≡ to_tensor(init) (orthonormal fixed factors)", SP.tucker_to_tensor(S, r[0], r[1]), SP.tucker_to_tensor(S, I["core"], I["fs"])))
                 return out
             add("_tucker:tucker", f"N={N},fixed_factors={fixed}", tk_setup(N, fixed), call, post, dict(order=N, fixed_factors=fixed), "fixed factors returned as supplied; tensor unchanged at zero budget")
+        # every factor fixed: nothing is left to update - the initialisation comes back unchanged (core and factors), whatever the budget
+        for budget in (0, 3):
+            def call_all(I, N=N, budget=budget):
+                S = I["_S"]
+                rank = list(I["r"]) if S.name == "sym" else [f.shape[1] for f in I["fs"]]
+                t = _tk.tucker(I["X"], rank, fixed_factors=list(range(N)), n_iter_max=budget, init=(I["core"], list(I["fs"])))
+                return (t.core, list(t.factors))
+            add("_tucker:tucker", f"N={N},every factor fixed,budget={budget}", tk_setup(N), call_all,
+                lambda S, I, r: [("factors returned as supplied", list(r[1]), list(I["fs"])), ("core returned as supplied", r[0], I["core"])],
+                dict(order=N, fixed_factors="all", budget=budget), "fixing every mode returns the initialisation")
     # ---- non-negative Tucker (HALS): fixed modes are never updated and come back as supplied (the non-negative initialisation takes |.| of the supplied
     # factors, the identity on the entrywise non-negative initialisation the routine requires)
     from ..iterative import real_dtype
@@ -343,6 +353,12 @@ def obligations(tier):
             return out
         add("_parafac2:parafac2", f"slices={nI},one sweep", setup, call, post, dict(n_slices=nI, sweep=1),
             "a start with weights and the same start with the weights absorbed into B give the same next iterate", assumptions=lambda I: [I["R"] <= I["K"]] + [I["R"] <= atom(f"J{i}") for i in range(len(I["Xs"]))])
+    # ====================================================================== bounded stand-in (never counted as proved): end-to-end native survey
+    from .c09 import BoundedOb
+    from . import e2e_native
+    obs.append(BoundedOb(f"{PID}/bounded/native survey: zero budgets, absorbed weights and fixed modes on the real entry points", "tensorly.decomposition:parafac+non_negative_parafac+non_negative_parafac_hals+constrained_parafac+tucker+non_negative_tucker_hals",
+                         lambda: e2e_native.c14(tier), dict(orders="2-3 (4 thorough)", weights="unit, positive, negative, mixed, none", fixed_modes="every subset without the last mode; Tucker: every subset"),
+                         "seed 0; tolerances 1e-9 (zero budget) / 1e-7 (absorbed weights); fixed factors bit-identical; the last mode of the CP routines is the known finding and is not fixed here", pid=PID))
     return obs
 
 
